@@ -133,6 +133,10 @@ class C08(Prop):
         mk("mod-hook-moves-into-dying", """t ld,b0\nt cl,b0\nt cl,b0\nt cl,b0\nt mv,o3,o2\nscript o3 mod mv,o4,o2;mv,o5,o2\nt de,o2\n""" + tail)
         mk("living-names", """t ld,b0\nt cl,b0\nt cl,b0\nt ec,o2\nt ln,o2,la\nt ln,o3,la\nt ec,o3\nt fl,la\nt ln,o4,lb\nt fl,lb\nt ec,o4\nt fl,lb
             snap\nprobe\nt ln,o2,lb\nt dc,o3\nt fl,la\nsnap\nprobe\nt de,o2\nt fl,lb\nt de,o4\nt fl,lb\n""" + tail)
+        mk("sentences-move-destruct", """script o3 init aa,o3,va\nscript o4 init aa,o4,va;aa,o4,vb\nscript o4 act mv,o5,o6\nscript o3 act de,o3
+            t ld,b0\nt cl,b0\nt cl,b0\nt cl,b0\nt ld,b1\nt ec,o5\nt mv,o3,o2\nt mv,o4,o2\nt mv,o5,o2\nsnap\nt cmd,o5,va\nt cmd,o5,vb\nsnap
+            t mv,o5,o2\nsnap\nt cmd,o5,va\nsnap\nt cmd,o5,va\nt cmd,o5,vc\nt dc,o5\nt cmd,o5,vb\nt ec,o5\nt aa,o2,vc\nt aa,o6,vc\nt cmd,o5,vc\nt de,o4\nt cmd,o5,vb\n""" + tail)
+        mk("sentence-of-destructed-lingers", """t ld,b0\nt cl,b0\nt cl,b0\nt mv,o3,o2\nt mv,o4,o2\nt ec,o3\nt aa,o4,va\nsnap\nt dc,o3\nt de,o4\nsnap\nt ec,o3\nt cmd,o3,va\ngc\nt cmd,o3,va\nt de,o3\n""" + tail)
         mk("references-read-zero", """t ld,b0\nt cl,b0\nt kp,o3\nt rd\nscript o3 create kp,o2;rd\nt de,o3\nt rd\nt kp,o3\nt mv,o3,o2\nt mv,o2,o3\nt ec,o3\nt ln,o3,x\nt de,o3\ngc\nt rd\n""" + tail)
         mk("reload-after-destruct", "t ld,b0\nt cl,b0\nt de,o2\nt fo,b0\nt ld,b0\nt fo,b0\nt cl,b0\nt fo,b0#1\nt fo,b0#2\ngc\nt de,o4\nt ld,b0\n" + tail)
         mk("find-moves-to-front", "t ld,b0\nt ld,b1\nt ld,b2\nt ld,b3\nt ld,b4\nt ld,b5\nt ld,b6\nt ld,b7\nsnap\nt fo,b0\nt fo,b3\nt fo,b5\nsnap\nt de,o4\nt de,o9\n" + tail)
@@ -145,9 +149,9 @@ class C08(Prop):
         return B
 
     OPS = [("ld", 9), ("cl", 14), ("mv", 28), ("de", 9), ("ec", 14), ("dc", 2), ("ln", 4), ("fo", 5), ("fl", 3),
-           ("kp", 3), ("rd", 2), ("err", 1)]
+           ("kp", 3), ("rd", 2), ("err", 1), ("aa", 9), ("cmd", 8)]
     HOPS = [("ld", 5), ("cl", 8), ("mv", 24), ("de", 14), ("ec", 5), ("dc", 1), ("ln", 2), ("fo", 2), ("fl", 1),
-            ("kp", 2), ("rd", 2), ("err", 2), ("mvarg", 6), ("nop", 2)]
+            ("kp", 2), ("rd", 2), ("err", 2), ("mvarg", 6), ("nop", 2), ("aa", 10), ("cmd", 3)]
 
     def gen_op(self, rng, st, table, self_id=None):
         k = rng.weighted(table)
@@ -170,6 +174,8 @@ class C08(Prop):
             return "mv,%s,%s" % (oid(), oid())
         if k in ("de", "ec", "dc", "kp"):
             return "%s,%s" % (k, oid())
+        if k in ("aa", "cmd"):
+            return "%s,%s,%s" % (k, oid(), rng.choice(["va", "vb", "vc"]))
         if k == "ln":
             return "ln,%s,%s" % (oid(), rng.choice(["la", "lb", "lc"]))
         if k == "fl":
@@ -204,7 +210,7 @@ class C08(Prop):
             # scripts for hooks that may fire during this step
             while nscripts < 14 and rng.chance(2, 5):
                 nscripts += 1
-                hk = rng.weighted([("create", 3), ("init", 5), ("mod", 5)])
+                hk = rng.weighted([("create", 3), ("init", 6), ("mod", 5), ("act", 3)])
                 if hk == "create":
                     target = st["est"] + 1 + rng.below(2)
                 else:
@@ -235,7 +241,7 @@ class C08(Prop):
 
     def histogram(self, cases, impl):
         h = {"objects_created": 0, "moves_ok": 0, "moves_refused": 0, "destructs": 0, "hooks_create": 0, "hooks_init": 0,
-             "hooks_mod": 0, "errors": 0, "gone_reads": 0, "snapshots": 0, "probes": 0, "max_population": 0, "scripts": 0}
+             "hooks_mod": 0, "hooks_act": 0, "commands_hit": 0, "commands_miss": 0, "add_actions": 0, "errors": 0, "gone_reads": 0, "snapshots": 0, "probes": 0, "max_population": 0, "scripts": 0}
         for c in cases:
             pop = 0
             for l in impl.get(c.id, []):
@@ -257,6 +263,10 @@ class C08(Prop):
                         h["moves_ok"] += 1
                     elif t[1] == "de" and t[-1] == "ok":
                         h["destructs"] += 1
+                    elif t[1] == "cmd" and t[-1] in ("0", "1"):
+                        h["commands_hit" if t[-1] == "1" else "commands_miss"] += 1
+                    elif t[1] == "aa" and t[-1] == "ok":
+                        h["add_actions"] += 1
                     if t[-1] == "!gone":
                         h["gone_reads"] += 1
                 elif t[0] == "S" and len(t) > 1 and t[1] == "ol":
